@@ -231,6 +231,24 @@ func c12Specs() []*edt.Spec {
 			Formula: map[string]func(e *edt.Env) edt.Tri{"sign-bytes": always},
 		},
 		{
+			// XOF transcripts: 32 bytes of XOF output under schnorrkel's label "sign-XoF"; a failed read panics
+			Pkg: "primitives/sr25519", Func: "(*SigningContext).NewTranscriptXOF", WritesOverride: merlinWrites, MinPaths: 2,
+			Vars: map[string]string{"isnil(err(io.ReadFull(zero)))": "readOK"},
+			Classify: func(p *edt.Path, out string, e *edt.Env) string {
+				switch {
+				case strings.HasPrefix(out, "panic("):
+					return "panic-read"
+				case out == "&new(agg(.t=(Transcript.AppendMessage(Transcript.Clone($sc.t), \"sign-XoF\", out1(io.ReadFull(zero))))))":
+					return "sign-XoF"
+				}
+				return ""
+			},
+			Formula: map[string]func(e *edt.Env) edt.Tri{
+				"sign-XoF":   func(e *edt.Env) edt.Tri { return e.V("readOK") },
+				"panic-read": func(e *edt.Env) edt.Tri { return edt.Not(e.V("readOK")) },
+			},
+		},
+		{
 			Pkg: "primitives/sr25519", Func: "NewSigningContext", WritesOverride: merlinWrites, MinPaths: 1,
 			Vars: map[string]string{},
 			Classify: func(p *edt.Path, out string, e *edt.Env) string {
